@@ -278,7 +278,174 @@ class read_3d_structure_c:
     ghost_exit = ["let G = group_atoms_G", "let S = group_atoms_S"]
 
 
+# ------------------------------------------------------------------------------------------------ parse_pdb
+# PDB 3.3 coordinate section, columns (1-based, inclusive) - the spec's own table, independent of the code's slices:
+#   record name 1-6 | ATOM/HETATM: name 13-16, resName 18-20, chainID 22, resSeq 23-26, iCode 27, x 31-38, y 39-46, z 47-54,
+#   occupancy 55-60 | MODEL: serial 11-14
+import z3 as _z3
+from fractions import Fraction as _Fraction
+
+
+def _ext_strip(e, args, kw, node, st):
+    """str.strip() without arguments: a deterministic function of the string (uninterpreted py_strip); nothing else assumed"""
+    from pyvc.values import Unsupported, to_z3
+    if len(args) != 1:
+        raise Unsupported("str.strip(chars)")
+    if isinstance(args[0], str):
+        return args[0].strip()
+    return e.ufun("py_strip", _z3.StringSort(), _z3.StringSort())(to_z3(args[0]))
+
+
+def _ext_int_ok(e, args, kw, node, st):
+    """the engine's own condition for int(s) not raising ValueError (pyvc/calls.py ext_int_of_str), term for term"""
+    from pyvc.values import to_z3
+    z = to_z3(args[0])
+    digits = _z3.Plus(_z3.Range("0", "9"))
+    ws = _z3.Star(_z3.Union(_z3.Re(" "), _z3.Re("\t"), _z3.Re("\n"), _z3.Re("\r"), _z3.Re("\x0b"), _z3.Re("\x0c")))
+    us = _z3.Concat(digits, _z3.Star(_z3.Concat(_z3.Re("_"), digits)))
+    return _z3.InRe(z, _z3.Concat(ws, _z3.Option(_z3.Union(_z3.Re("+"), _z3.Re("-"))), us, ws))
+
+
+def _ext_float_ok(e, args, kw, node, st):
+    """float(s) does not raise ValueError: the engine's uninterpreted predicate py_float_ok"""
+    from pyvc.values import to_z3
+    return e.ufun("py_float_ok", _z3.StringSort(), _z3.BoolSort())(to_z3(args[0]))
+
+
+EXTERNALS = {"str.strip": _ext_strip, "spec.int_ok": _ext_int_ok, "spec.float_ok": _ext_float_ok}
+SPEC_EXTERNALS = {"strip": "str.strip", "int_ok": "spec.int_ok", "float_ok": "spec.float_ok"}
+
+
+@spec
+def col(l, a, b):
+    """columns a..b (1-based, inclusive) of a line"""
+    return l[a - 1:b]
+
+
+@spec
+def is_atom_line(l):
+    return col(l, 1, 6) == "ATOM  " or col(l, 1, 6) == "HETATM"
+
+
+@spec
+def is_model_line(l):
+    return col(l, 1, 6) == "MODEL "
+
+
+@spec
+def model_of(L, m):
+    """serial of the MODEL record at line m; 1 when no MODEL record precedes (m == -1)"""
+    return ite(m < 0, 1, int(strip(col(L[m], 11, 14))))
+
+
+@spec
+def decoded(a, l, m):
+    """the atom written on the ATOM/HETATM line l, in model m: every field exactly as written"""
+    return (a.entity_id is None and a.label is None and a.auth is not None
+            and a.name == strip(col(l, 13, 16))
+            and a.auth.name == strip(col(l, 18, 20))
+            and a.auth.chain == col(l, 22, 22)
+            and a.auth.number == int(strip(col(l, 23, 26)))
+            and a.auth.icode == ite(col(l, 27, 27) == " ", None, col(l, 27, 27))
+            and a.x == float(strip(col(l, 31, 38))) and a.y == float(strip(col(l, 39, 46))) and a.z == float(strip(col(l, 47, 54)))
+            and a.occupancy == float(strip(col(l, 55, 60)))
+            and a.model == m)
+
+
+@spec
+def wf_pdb(L):
+    """well-formed PDB text: record names occupy columns 1-6; ATOM/HETATM lines reach column 27 (shorter lines raise
+    IndexError at line[21] / line[26]; the slices never raise) and their numeric columns parse; MODEL serials parse;
+    MODRES lines reach column 24 and their sequence number parses"""
+    return forall(lambda l: implies(0 <= l and l < len(L),
+                                    implies(L[l].startswith("ATOM"), col(L[l], 1, 6) == "ATOM  ")
+                                    and implies(L[l].startswith("MODEL"), col(L[l], 1, 6) == "MODEL ")
+                                    and implies(is_model_line(L[l]), int_ok(strip(col(L[l], 11, 14))))
+                                    and implies(is_atom_line(L[l]),
+                                                len(L[l]) >= 27 and int_ok(strip(col(L[l], 23, 26)))
+                                                and float_ok(strip(col(L[l], 31, 38))) and float_ok(strip(col(L[l], 39, 46)))
+                                                and float_ok(strip(col(L[l], 47, 54))) and float_ok(strip(col(L[l], 55, 60))))
+                                    and implies(L[l].startswith("MODRES"), len(L[l]) >= 24 and int_ok(strip(col(L[l], 19, 22))))))
+
+
+class io_seek_c:
+    """assumed: seek(0) rewinds; the ghost field `lines` is what readlines() returns from the start of the file"""
+    params = {"self": "IO", "pos": "int"}
+    requires = []
+    ensures = []
+    raises = []
+    modifies = []
+
+
+class io_readlines_c:
+    params = {"self": "IO"}
+    requires = []
+    returns = "list[str]"
+    ensures = ["len(result) == len(self.lines)", "forall(lambda q: implies(0 <= q and q < len(result), result[q] == self.lines[q]))"]
+    raises = []
+    modifies = []
+
+
+class filter_clashing_atoms_c:
+    params = {"atoms": "list[rec[Atom]]", "clash_distance": "real"}
+    defaults = {"clash_distance": _Fraction(1, 2)}
+    requires = []
+    returns = "list[rec[Atom]]"
+    ensures = []
+    raises = []
+    modifies = []
+
+
+class parse_pdb_decode_c:
+    """D = the atoms decoded from the lines (before filter_clashing_atoms); SRC[j] = line of D[j]; MS[j] = line of the MODEL
+    record governing D[j] (-1: none); POS[l] = position in D of the atom of line l"""
+    params = {"pdb": "IO"}
+    requires = ["wf_pdb(pdb.lines)"]
+    returns = "tuple[list[rec[Atom]],dict[rec[ResidueAuth],str],dict[str,str],dict[str,bool]]"
+    ghost_returns = {"D": "list[rec[Atom]]", "SRC": "list[int]", "MS": "list[int]", "POS": "list[int]"}
+    ensures = [
+        # every ATOM/HETATM record is decoded exactly once, in file order
+        "len(SRC) == len(D) and forall(lambda j: implies(0 <= j and j < len(D), 0 <= SRC[j] and SRC[j] < len(pdb.lines) and is_atom_line(pdb.lines[SRC[j]])))",
+        "forall(lambda j, j2: implies(0 <= j and j < j2 and j2 < len(D), SRC[j] < SRC[j2]))",
+        "forall(lambda l: implies(0 <= l and l < len(pdb.lines) and is_atom_line(pdb.lines[l]), 0 <= POS[l] and POS[l] < len(D) and SRC[POS[l]] == l))",
+        # chain, number (including negative), insertion code, names, coordinates, occupancy exactly as written; model = MODEL record
+        "forall(lambda j: implies(0 <= j and j < len(D), decoded(D[j], pdb.lines[SRC[j]], model_of(pdb.lines, MS[j]))))",
+        # ... the last MODEL record before the atom's line (none: model 1)
+        "len(MS) == len(D) and forall(lambda j: implies(0 <= j and j < len(D), 0 - 1 <= MS[j] and MS[j] < SRC[j] and implies(MS[j] >= 0, is_model_line(pdb.lines[MS[j]]))))",
+        "forall(lambda j, l: implies(0 <= j and j < len(D) and MS[j] < l and l < SRC[j], not is_model_line(pdb.lines[l])))",
+    ]
+    ensures_labels = {0: "decoded-atoms-come-from-ATOM-HETATM-records", 1: "in-file-order-each-once", 2: "every-ATOM-HETATM-record-is-decoded",
+                      3: "fields-exactly-as-written-in-the-PDB-columns", 4: "model-is-a-preceding-MODEL-record-or-1", 5: "model-is-the-LAST-preceding-MODEL-record"}
+    raises = []
+    modifies = []
+    locals = {"atoms_to_process": "list[rec[Atom]]", "modified": "dict[rec[ResidueAuth],str]"}
+    ghost_entry = ["let SRC = empty('list[int]')", "let MS = empty('list[int]')", "let POS = empty('list[int]')", "let LM = 0 - 1",
+                   "let D = empty('list[rec[Atom]]')"]
+    loops = {0: {"index": "i", "inv": [
+        "len(atoms_to_process) >= 0 and len(SRC) == len(atoms_to_process) and len(MS) == len(SRC) and len(POS) == i",
+        "0 - 1 <= LM and LM < i and implies(LM >= 0, is_model_line(pdb.lines[LM]))",
+        "forall(lambda l: implies(LM < l and l < i, not is_model_line(pdb.lines[l])))",
+        "model == model_of(pdb.lines, LM)",
+        "forall(lambda j: implies(0 <= j and j < len(SRC), 0 <= SRC[j] and SRC[j] < i and is_atom_line(pdb.lines[SRC[j]])))",
+        "forall(lambda j: implies(0 <= j and j < len(SRC), decoded(atoms_to_process[j], pdb.lines[SRC[j]], model_of(pdb.lines, MS[j]))))",
+        "forall(lambda j: implies(0 <= j and j < len(SRC), 0 - 1 <= MS[j] and MS[j] < SRC[j] and implies(MS[j] >= 0, is_model_line(pdb.lines[MS[j]]))))",
+        "forall(lambda j, l: implies(0 <= j and j < len(SRC) and MS[j] < l and l < SRC[j], not is_model_line(pdb.lines[l])))",
+        "forall(lambda j, j2: implies(0 <= j and j < j2 and j2 < len(SRC), SRC[j] < SRC[j2]))",
+        "forall(lambda l: implies(0 <= l and l < i and is_atom_line(pdb.lines[l]), 0 <= POS[l] and POS[l] < len(SRC) and SRC[POS[l]] == l))",
+    ]}}
+    ghost = [
+        {"when": "after", "at": "model = int(line[10:14]", "loop": 0, "label": "model-record", "do": ["let LM = i"]},
+        {"when": "after", "at": "atoms_to_process.append(", "loop": 0, "label": "atom-record", "do": ["let SRC = snoc(SRC, i)", "let MS = snoc(MS, LM)"]},
+        {"when": "after", "at": "if line.startswith('MODEL')", "loop": 0, "label": "line-done", "do": ["let POS = snoc(POS, len(atoms_to_process) - 1)"]},
+        {"when": "before", "at": "atoms = filter_clashing_atoms(", "label": "decoded", "do": ["let D = atoms_to_process"]},
+    ]
+
+
 CONTRACTS = {
+    "IO.seek": io_seek_c,
+    "IO.readlines": io_readlines_c,
+    "filter_clashing_atoms": filter_clashing_atoms_c,
+    "parse_pdb@decode": parse_pdb_decode_c,
     "is_cif": is_cif_c,
     "parse_cif": parse_cif_c,
     "parse_pdb": parse_pdb_c,
